@@ -74,7 +74,7 @@ def run_check(prop, tier, seed, replay=None):
         violations.append(("check machinery error", {"kind": "error", "error": traceback.format_exc()}, False))
     if ctx:
         for k in ("evaluations", "distinct_nontrivial", "rule", "samples", "traces_validated_against_impl",
-                  "distribution", "exhaustive", "exhaustive_part", "unmodelled", "direct_property_cases", "modelled_handlers", "handlers", "corpus_scripts", "harness_build_s", "skipped_by_model", "fetch_slice", "generator_clause", "golden_agreement", "helper_cases", "family_instruction_cases"):
+                  "distribution", "exhaustive", "exhaustive_part", "unmodelled", "direct_property_cases", "modelled_handlers", "handlers", "corpus_scripts", "harness_build_s", "skipped_by_model", "fetch_slice", "instruction_slice", "generator_clause", "golden_agreement", "helper_cases", "family_instruction_cases"):
             if k in ctx:
                 cov[k] = ctx[k]
         for v in ctx.get("violations", []):
